@@ -22,6 +22,7 @@ RFC_BOUNDS = {
     "ActiveConnectionIdLimit": (2, VARINT_MAX),
     "InitialMaxStreamsBidi": (0, (1 << 60) - 1),   # RFC: <= 2^60; the repo's stream-id arithmetic needs <= 2^60-1
     "InitialMaxStreamsUni": (0, (1 << 60) - 1),
+    "MaxAckDelay": (0, (1 << 14) - 1),             # milliseconds; "values of 2^14 or greater are invalid"
 }
 SERVER_ONLY = {"OriginalDestinationConnectionId", "StatelessResetToken", "PreferredAddress", "RetrySourceConnectionId"}
 CLIENT_ONLY = {"ClientName"}
